@@ -309,10 +309,19 @@ def op_churn(st, recipe, seed, n=25, with_keys=True):
     viol = []
     cnt = {"churn_rounds": 0, "churn_comparisons": 0}
     kb = st.key_builder()
+    # each round wraps NEW data (salt) unless the recipe has none: the arrays
+    # of the previous round are dead by then and their addresses free.  Keys
+    # seen in earlier rounds are remembered by content: key <-> content must
+    # stay a bijection over the whole run (a new array that inherits the
+    # address of a dead one must not inherit its key).
+    key_of_content: dict = {}
+    content_of_key: dict = {}
+    sample = None
     for _ in range(n):
+        salt = rng.randrange(1, 10 ** 6) if rng.random() < 0.8 else 0
         try:
-            _v1, g1 = srecipe.build(recipe, None)
-            _v2, g2 = srecipe.build(recipe, None)
+            _v1, g1 = srecipe.build(recipe, None, salt)
+            _v2, g2 = srecipe.build(recipe, None, salt)
             ss = mutate.sites(g1)
             m = None
             for _try in range(4):
@@ -385,8 +394,35 @@ def op_churn(st, recipe, seed, n=25, with_keys=True):
                                      "handles": [], "detail": ""})
                 except Exception:  # noqa: BLE001
                     pass
+        if with_keys:
+            try:
+                k1 = kb(g1)
+                c1 = walker.canon_key(g1, "content", scalar_types=True)
+            except Exception:  # noqa: BLE001
+                k1 = None
+            if k1 is not None:
+                cnt["churn_keys"] = cnt.get("churn_keys", 0) + 1
+                if key_of_content.setdefault(c1, k1) != k1:
+                    viol.append({"class": "same-structure-but-key-differs",
+                                 "handles": [], "detail":
+                                 "transient graph rebuilt in a later round "
+                                 f"(salt {salt})"})
+                if content_of_key.setdefault(k1, c1) != c1:
+                    viol.append({"class": "key-collision:transient-rounds",
+                                 "handles": [], "detail":
+                                 "graphs of two rounds that wrap different "
+                                 f"data have one key (salt {salt})"})
+                sample = {"salt": salt, "key": k1, "content": c1}
         del g1, g2, m, pairs
-    return {"violations": viol[:6], "counters": cnt}
+    return {"violations": viol[:6], "counters": cnt, "sample": sample}
+
+
+def op_recipe_key(st, recipe, salt):
+    """key of a graph built here from scratch (reference for another
+    interpreter's churn sample)"""
+    _v, g = srecipe.build(recipe, None, salt)
+    return {"key": st.key_builder()(g),
+            "content": walker.canon_key(g, "content", scalar_types=True)}
 
 
 def op_hash(st, hid, deep=False):
